@@ -12,12 +12,18 @@ CLAIMED = {
  "C02": ("other", "tag-switch totality, exact-tag and buffer-discipline rules over regenerated code; sorted-key emission rule",
          "Decides the structural necessary conditions of canonical acceptance: every union/enum boxed reader rejects unknown tags in its default arm and has pairwise distinct tags; every boxed struct reader demands exactly its own TLTag; Bool readers use two distinct tags; readers consume input only through basictl primitives/sibling readers; map-backed dictionary writers emit from sorted keys. Does not decide the behaviour 'accepted prefix is re-written identically' as a whole (that is these clauses + C01 duality + C33 tables).",
          "trusts go/types, C01 and C33; corpus-bounded for schemas", "DESIGN.md §3 C02"),
+ "C03": ("other", "three-way sibling agreement CalculateLayout/InternalWriteTL2/InternalReadTL2 over regenerated code (slot tables, value-op sequences, framing, panic guards)",
+         "Decides per generated type: every writer field slot (presence condition, block byte, bit, data ops) has a reader slot with the same byte/bit and dual ops on the same operands; reader-only slots only skip; CalculateLayout has the same slots under the same conditions, starts block bytes at the same places and adds the widths of what the writer writes; nested values are traversed in the same order by all three; readers parse the size first and reject size > remaining input; writer panics depend only on calculate/write bookkeeping. Numeric size values are not decided.",
+         "trusts go/types, basictl TL2 primitive table (C33); corpus-bounded", "DESIGN.md §3 C03"),
  "C04": ("other", "sibling agreement of the presence table (TL1 mask bit, TL2 presence bit, field) across all generated sites",
          "Decides that for every generated struct the ties field↔TL1 mask bit↔hidden TL2 presence bit extracted from ReadTL1, WriteTL1, RepairMasks, FillRandom, ReadJSONGeneral, CalculateLayout, InternalWriteTL2, InternalReadTL2, WriteJSONOpt are single-valued and compose: a necessary condition for TL1→TL2→TL1 to preserve values. Value equality of JSON is not decided.",
          "trusts go/types and the shape extractor's idiom table; corpus-bounded", "DESIGN.md §3 C04"),
  "C17": ("translation_validation", "constant evaluation and cross-check of registry tables against type constants and boxed writers",
          "Cross-checks by constant evaluation, per corpus: meta registration literals ↔ factory registrations ↔ TLName()/TLTag() constants of the constructed Go type ↔ first word written by WriteTL1Boxed; function-ness ⇔ result transcoders exist; HaTL1/HaTL2 ⇔ readers are real, not stubs; names and non-zero tags pairwise distinct; every item has a factory and vice versa.",
          "programs = corpora; agreement with the schema text is not decided (schema seen only through the generator)", "DESIGN.md §3 C17"),
+ "C33": ("other", "decision-table extraction from basictl source compared with the documented layout and across sibling functions",
+         "Decides the layout tables of TL1 strings (arm guards, header sizes, length byte positions/shifts, padding bases, non-minimal and non-zero-padding rejections, residue (-p) mod 4 on both sides), TL2 varlen sizes in Write/Put/Calculate/Parse, fixed-width pairs (little-endian, reader consumes what writer appends), bit vectors (8 per byte, LSB first, partial tail) and that every truncation guard returns io.ErrUnexpectedEOF, for pkg/basictl and the two linked copies. Does not execute a round trip.",
+         "trusts the frozen documented tables, encoding/binary, go/types constant folding", "DESIGN.md §3 C33"),
  "C43": ("other", "who-may-write rule inside each accessor + agreement with the presence table of readers/writers",
          "Decides for every generated SetF/ClearF/IsSetF that it assigns/resets exactly F, sets/clears/tests exactly the presence bits that readers and writers use for F (TL1 mask bit incl. external mask pointer, TL2 presence bit), touches no other field or bit, and that no TL2 presence bit is owned by two fields; union variant accessors agree on the variant index and value field with the TL1 reader.",
          "for true-type bit fields (no struct field) the tie name↔bit is checked only as a mirror pair known to the readers plus uniqueness; corpus-bounded", "DESIGN.md §3 C43"),
